@@ -61,7 +61,29 @@ def impl_graph(g, mol: Mol, text):
         for kind in ("prob", "term_prob", "trans_prob"):
             if kind in dat:
                 edges.append((fa, kind, fb, float(dat[kind])))
-    return n_nodes, edges, unknown, len(tok_index) + len(desc_index)
+    # the mirrored molecule is a molecule too: its graph has one node per token and descriptor OF THE MIRROR (built after the original's)
+    mirror_problem = None
+    try:
+        mir = obj.gen_mirror()
+    except Exception:
+        mir = None
+    if mir is not None:
+        try:
+            gm = mir.gen_reaction_graph()
+        except Exception:
+            gm = None          # whether a mirrored text is a well-formed molecule is not C16's business
+        if gm is not None:
+            own = set()
+            for e in mir._elements:
+                toks = [e] if type(e).__name__ == "SmilesToken" else list(e.repeat_tokens) + list(e.end_tokens)
+                for t in toks:
+                    own.add(id(t))
+                    own |= {id(bd) for bd in t.bond_descriptors}
+            foreign = [n for n in gm.nodes if id(n) not in own]
+            if foreign or len(gm.nodes) != len(own):
+                mirror_problem = (f"graph of the mirrored molecule has {len(gm.nodes)} nodes, {len(foreign)} of them are not tokens / descriptors of the mirror "
+                                  f"(which has {len(own)})")
+    return n_nodes, edges, unknown, len(tok_index) + len(desc_index), mirror_problem
 
 
 def classify(mol: Mol, frm, kind, flat, want):
@@ -126,11 +148,13 @@ def run(tier):
         states += r.distinct
         trans += r.generated
         try:
-            n_nodes, edges, unknown, n_expected_nodes = impl_graph(g, m, text)
+            n_nodes, edges, unknown, n_expected_nodes, mirror_problem = impl_graph(g, m, text)
         except Exception as exc:
             v.violation(f"C16:graph-raises:{type(exc).__name__}@{m.name}", f"gen_reaction_graph() raises {type(exc).__name__}: {exc} on {text}", {"instance": text})
             continue
         flat = [(t, None) for t in m.tokens()]
+        if mirror_problem:
+            v.violation("C16:mirror-graph-nodes", f"{text}: {mirror_problem}", {"instance": text})
         if n_nodes != graph["nodes"]:
             v.violation("C16:node-count", f"{text}: {n_nodes} nodes, one per token and per descriptor would be {graph['nodes']}", {"instance": text})
         if unknown:
